@@ -157,9 +157,9 @@ func faultProbeRun(t *rapid.T) {
 		count("programs_sampled_fault_points", 1)
 	}
 
-	shiftJs := []int{1, 2, 7}
+	shiftJs := []int{1, 2, 7, 130}
 	if thorough {
-		shiftJs = []int{1, 2, 7, 100}
+		shiftJs = []int{1, 2, 7, 100, 130, 1000}
 	}
 
 	for _, k := range ks {
@@ -425,9 +425,9 @@ func checkLine(t *rapid.T, p *Program, err error, want int, cls string, det func
 		})
 		return
 	}
-	js := []int{1, 2, 7}
+	js := []int{1, 2, 7, 130}
 	if thorough {
-		js = append(js, 100)
+		js = append(js, 100, 1000)
 	}
 	j := js[uni(t, "shift", len(js))]
 	sout, serr := rerender(strings.Repeat("\n", j) + p.Main)
